@@ -9,6 +9,10 @@ COMMON_ASSUMPTIONS = [
     "the matcher configuration, case matching and normalisation are fixed for the lifetime of a run; append hints are truthful",
 ]
 
+MIRI_BOXCAR = dict(name="boxcar", argv=["boxcar", "1", "20"], seeds=32)
+MIRI_NUCLEO = dict(name="nucleo", argv=["nucleo", "1", "16"], seeds=32)
+MIRI_SORT = dict(name="sort", argv=["sort", "4100", "2"], seeds=2, timeout=1500)
+
 PROPERTIES = {
     "C06": dict(
         quick_runs=160_000, thorough_runs=6_000_000, level="exploration",
@@ -20,6 +24,7 @@ PROPERTIES = {
                "get_unchecked-on-unpublished assertion; any panic on a pool thread.",
         assumptions=COMMON_ASSUMPTIONS,
         probes_expected=["run.canceled", "tick.stale_run_discarded", "join.stolen", "boxcar.cas_lost", "take_any_while.stopped"],
+        miri=[MIRI_NUCLEO],
     ),
     "C07": dict(
         quick_runs=160_000, thorough_runs=6_000_000, level="exploration",
@@ -43,6 +48,7 @@ PROPERTIES = {
                "count() is non-decreasing and >= pushes completed before it was invoked.",
         assumptions=COMMON_ASSUMPTIONS + ["indices above MAX_ENTRIES (where Location::of panics by design) are not generated"],
         probes_expected=["oracle.c08", "boxcar.cas_lost"],
+        miri=[MIRI_BOXCAR],
     ),
     "C09": dict(
         quick_runs=120_000, thorough_runs=4_000_000, level="exploration",
@@ -52,6 +58,7 @@ PROPERTIES = {
                "Entry::read, per-thread matcher cell) must be ordered after the last conflicting access.",
         assumptions=COMMON_ASSUMPTIONS + ["memory outside the hooked regions is race-checked only by engine B (Miri)"],
         probes_expected=["boxcar.cas_lost", "join.stolen"],
+        miri=[MIRI_BOXCAR, MIRI_NUCLEO, MIRI_SORT],
     ),
     "C11": dict(
         quick_runs=120_000, thorough_runs=4_000_000, level="fault_enumeration",
@@ -97,6 +104,7 @@ PROPERTIES = {
         assumptions=COMMON_ASSUMPTIONS + ["comparisons are not scheduling points (the comparator is harness code)"],
         probes_expected=["sort.heapsort", "sort.break_patterns", "sort.partial_insertion", "sort.partition_equal",
                          "sort.canceled_at_fork", "join.stolen"],
+        miri=[MIRI_SORT],
     ),
     "C19": dict(
         quick_runs=160_000, thorough_runs=6_000_000, level="exploration",
